@@ -55,18 +55,22 @@ Consume ==                                      \* <-c.Signals()
   /\ WithConsumer /\ s.buffered > 0
   /\ s' = [s EXCEPT !.buffered = @ - 1, !.got = TRUE]
 
+\* every step of termination is judged: it must leave the delivery buffer alone
+KeepsBuffered(t) == [t EXCEPT !.bad = @ \cup Violated("C31_TerminateKeepsBuffered",
+                                                      C31_TerminateKeepsBuffered(s.buffered, t.buffered))]
+
 TerminateCall ==                                \* c.cancel()
   /\ WithTerminate /\ s.tpc = "idle"
-  /\ s' = [s EXCEPT !.ctxCancelled = TRUE, !.tpc = "waitdone"]
+  /\ s' = KeepsBuffered([s EXCEPT !.ctxCancelled = TRUE, !.tpc = "waitdone"])
 
 TerminateReturn ==                              \* <-c.done
   /\ s.tpc = "waitdone" /\ s.loopDone
-  /\ s' = [s EXCEPT !.tpc = "returned"]
+  /\ s' = KeepsBuffered([s EXCEPT !.tpc = "returned"])
 
 \* --- the run loop --------------------------------------------------------
 LoopCtxDone ==
   /\ ~s.loopDone /\ s.ctxCancelled
-  /\ s' = [s EXCEPT !.timer = -1, !.loopDone = TRUE]
+  /\ s' = KeepsBuffered([s EXCEPT !.timer = -1, !.loopDone = TRUE])   \* stops the TIMER; signals is not touched
 
 LoopStrobe ==                                   \* may be chosen even if the context is already cancelled
   /\ ~s.loopDone /\ s.strobers > 0
@@ -102,7 +106,11 @@ InvC31_NoLoss == C31_NoLoss(OwedFor, Window, 0)
 InvTimerPays == (s.owed /\ ~s.loopDone) => s.timer = Window - s.quiet
 \* once paid, the signal is in the channel or was consumed after the strobe
 InvDelivered == (s.nstrobes > 0 /\ s.fired > 0 /\ ~s.owed) => (s.buffered > 0 \/ s.got)
-InvC31_Coalesces == s.bad = {}
+InvC31_Coalesces == s.bad = {}       \* also C31_TerminateKeepsBuffered (monitor)
+\* only the consumer ever takes a signal out of the buffer (action property)
+OnlyConsumeTakes == [][s'.buffered < s.buffered => (s'.got /\ s'.buffered = s.buffered - 1)]_s
+\* a signal that was emitted and not consumed is still there - before, during and after termination
+InvC31_DeliveredSurvivesTerminate == (s.fired > 0 /\ ~s.got /\ ~s.owed) => s.buffered > 0
 \* strobes never block for good, Terminate returns
 LiveStrobeReturns == (s.strobers > 0) ~> (s.strobers = 0 \/ s.ticks = MaxTicks)
 LiveTerminateReturns == (s.tpc = "waitdone") ~> (s.tpc = "returned")
